@@ -217,9 +217,26 @@ TS_VARIANTS = [("%s,direction=%d" % (code, d), (code, d)) for code in (10047, 10
 CODE2TYPE = {10047: "b", 10055: "e", 10072: "j", 10073: "k", 10077: "n", 10082: "r", 10085: "s", 10086: "t"}
 
 
+def _replay_tscaling(md, vparam, model, st):
+    code, direction = vparam
+    script = """
+import sys
+from nptdms import thermocouples
+from nptdms.scaling import ThermocoupleScaling
+code, direction = %r, %r
+want = getattr(thermocouples, "type_" + %r)
+props = {"NI_Scale[0]_Thermocouple_Thermocouple_Type": code, "NI_Scale[0]_Thermocouple_Scaling_Direction": direction,
+         "NI_Scale[0]_Thermocouple_Input_Source": 0xFFFFFFFF}
+sc = ThermocoupleScaling.from_properties(props, 0)
+print("type code", code, "selects", "the right table" if sc.thermocouple is want else "ANOTHER table")
+sys.exit(0 if sc.thermocouple is want else 1)
+""" % (code, direction, CODE2TYPE[code])
+    return {"script": script, "function": "scaling.ThermocoupleScaling.__init__"}
+
+
 @harness("thermocouple_scaling", ["scaling.ThermocoupleScaling.__init__", "scaling.ThermocoupleScaling.scale",
                                   "scaling.ThermocoupleScaling.from_properties"], ["C18", "C13"],
-         variants=TS_VARIANTS,
+         variants=TS_VARIANTS, replay=_replay_tscaling,
          note="type code -> table, direction and the microvolt convention, on one arbitrary real element")
 def _scaling(vc):
     code, direction = vc.variant
